@@ -30,7 +30,7 @@ def _used_types(spec, m):
             used.setdefault(t, []).append((xid, d))
             cid = m.resolve(scope, t)
             if cid:
-                frontier += [(u, d + 1) for (u, _) in spec["ctors"][cid]["ins"]]
+                frontier += [(u, d + 1) for (u, _) in m.ctor_inputs(cid, t)]
     return used
 
 
@@ -170,15 +170,26 @@ def op_singleton_not_send_sync(rng, spec, m):
 
 
 def op_singleton_by_value_never_clone(rng, spec, m):
-    singles = [t for t, ty in spec["types"].items() if ty["lc"] == "singleton" and not ty.get("copy") and m.resolve((), t)
+    """A never-clone, non-Copy singleton taken by value at request time: by a handler, a middleware (wrapping ones
+    included), a request-scoped/transient constructor or a generic constructor. The type does implement Clone half of the
+    time, so that a compiler that wrongly accepts still produces code that builds."""
+    singles = [t for t, ty in spec["types"].items() if ty["lc"] == "singleton" and not ty.get("copy") and not ty.get("generic") and m.resolve((), t)
                and all(c.get("cloning") != "cin" for c in spec["ctors"].values() if c["out"] == t)]
-    comps = [x for (k, xid, x) in _registered_components(spec, m, ("handlers",))]
-    if not singles or not comps:
+    if not singles:
         return None
     t = rng.choice(singles)
-    x = rng.choice(comps)
+    if rng.random() < 0.5:
+        spec["types"][t]["clone"] = True
+    used = _used_types(spec, m)
+    consumers = [("handler", xid, x) for (k, xid, x) in _registered_components(spec, m, ("handlers",))]
+    consumers += [(x["kind"], xid, x) for (k, xid, x) in _registered_components(spec, m, ("mws",))]
+    consumers += [("ctor:" + c["lc"] + (":generic" if c.get("generic_param") else ""), cid, c) for cid, c in spec["ctors"].items()
+                  if c["lc"] != "singleton" and c["out"] in used or (c.get("generic_param") and any(u.split("<")[0] == c["out"].split("<")[0] for u in used))]
+    if not consumers:
+        return None
+    kind, xid, x = rng.choice(consumers)
     x["ins"] = [i for i in x["ins"] if i[0] != t] + [[t, "val"]]
-    return {"type": t}
+    return {"type": t, "variant": kind, "consumer": xid}
 
 
 def op_mut_ref(rng, spec, m):
